@@ -64,7 +64,10 @@ FieldCases(s) ==
                     \cup {Case(s, "len" \o ToString(t), i, Overwrite(b, i, LenTails[t])) : i \in lens, t \in 1..Len(LenTails)}
                     \cup UNION {{Case(s, "lenshrink" \o ToString(k - 1), i, Set1(b, i, k - 1)) : k \in Positions(IF b[i] < 128 THEN b[i] ELSE 0)} : i \in lens}
                     \cup {Case(s, "lenplus", i, Set1(b, i, IF b[i] < 255 THEN b[i] + 1 ELSE 255)) : i \in lens}
-                    \cup {Case(s, "lencut", i, SubSeq(b, 1, i)) : i \in lens})
+                    \cup {Case(s, "lencut", i, SubSeq(b, 1, i)) : i \in lens}
+                    \* a run of fragment headers in front of a length determinant: a decoder that adds up fragment sizes before it reads
+                    \* any content allocates 64K units per input octet
+                    \cup {Case(s, "lenrun" \o ToString(k), i, SubSeq(b, 1, i - 1) \o Tup([j \in 1..k |-> 196]) \o SubSeq(b, i, n)) : i \in lens, k \in {4, 64}})
 Init == l = 1 /\ out = 0
 Next == /\ l <= Len(Seeds)
         /\ LET cs == CasesOf(Seeds[l]) \o FieldCases(Seeds[l]) IN
